@@ -41,6 +41,7 @@ def rand_shape(rnd):
 
 class C13(Monitor):
     prop = "C13"
+    quick_cases = 1400
     rule = ("sequences of API requests {add with/without id, duplicate id, update of an unknown id, update with a changed type, bad "
             "type, delete of an unknown id, delete, each of them also as anonymous user} interleaved with file selection, print "
             "start and print end events under both clear-after-print settings; a list model (append / replace in place / remove) "
@@ -49,8 +50,6 @@ class C13(Monitor):
             "distinct by digest")
     assumptions = ["on_api_command is called directly (OctoPrint's own request validation is not part of the plugin)"]
 
-    def budget(self, tier):
-        return dict(workers=4, cases=400) if tier == "quick" else dict(workers=16, cases=0, secs=150, timeout=1500)
 
     def gen_case(self, rnd, tier, k):
         steps = []
@@ -285,6 +284,7 @@ def exact_margin(shape, px, py):
 
 class C12(Monitor):
     prop = "C12"
+    quick_cases = 800
     rule = ("request sequences add/update/delete during an active print with adversarial geometry: the new region is the old one "
             "grown/shrunk/shifted by {0, +-2^-44, +-1e-9, +-1e-3, +-1}, all four old/new type pairs (circumscribed circle, bounding and "
             "inscribed square), unordered corners; a probe set (extremes, next-after neighbours, boundary and interior points of "
@@ -294,8 +294,6 @@ class C12(Monitor):
             "non-trivial = sequence with >= 1 accepted and >= 1 refused update during a print; distinct by digest")
     assumptions = ["flips closer than 1e-9 relative to a border are counted as borderline, not judged"]
 
-    def budget(self, tier):
-        return dict(workers=4, cases=300) if tier == "quick" else dict(workers=16, cases=0, secs=180, timeout=1500)
 
     def gen_case(self, rnd, tier, k):
         steps = []
@@ -325,7 +323,7 @@ class C12(Monitor):
             else:
                 steps.append(["event", rnd.choice(EV_END)])
                 steps.append(["event", EV_START])
-        return dict(settings=dict(shrink=shrink, clear=False), steps=steps)
+        return dict(settings=dict(shrink=shrink, clear=rnd.random() < 0.4), steps=steps)
 
     @staticmethod
     def shapes_of(regions):
